@@ -1064,7 +1064,40 @@ def enum_paths(fn, start=0, ends=None, limit=20000, avoid=()):
         count[b] -= 1
 
     go(start)
-    return out
+    return [p for p in out if path_feasible(fn, p)]
+
+
+def path_feasible(fn, path):
+    """prune paths that branch on the very same value in contradictory ways (drop-elaboration re-tests the
+    discriminant of an Option it already matched on; `if x {..} .. if x {..}`): only when no block repeats"""
+    if len(set(path)) != len(path):
+        return True
+    seen_enum = {}
+    seen_bool = {}
+    for a in path_atoms(fn, path):
+        key = repr(a[1])
+        if a[0] == "enum":
+            names = set(a[2])
+            if key in seen_enum:
+                prev = seen_enum[key]
+                pos_prev = {n for n in prev if not n.startswith("!")}
+                pos_now = {n for n in names if not n.startswith("!")}
+                neg_prev = {n[1:] for n in prev if n.startswith("!")}
+                neg_now = {n[1:] for n in names if n.startswith("!")}
+                if pos_prev and pos_now and not (pos_prev & pos_now):
+                    return False
+                if (pos_prev and pos_prev <= neg_now) or (pos_now and pos_now <= neg_prev):
+                    return False
+                if pos_prev and pos_now:
+                    names = pos_prev & pos_now
+            seen_enum[key] = names
+        elif a[0] == "bool":
+            if a[1][0] in ("phi", "var", "const"):
+                continue          # drop flags and loop variables change between tests
+            if key in seen_bool and seen_bool[key] != a[2]:
+                return False
+            seen_bool[key] = a[2]
+    return True
 
 
 def is_log_block_term(t):
